@@ -387,20 +387,26 @@ pub fn workload(name: &str, tier: &str) -> Option<Box<dyn Workload>> {
             cli_every: if quick { 15 } else { 100 },
         })),
         "explore" => Some(Box::new(c01::Explore {
-            n: if quick { 40_000 } else { 1_000_000 },
+            n: if quick { 40_000 } else { 3_000_000 },
         })),
         "c01depth" => Some(Box::new(c01::Depth)),
         "c03" => Some(Box::new(c03::Docs {
-            n: if quick { 40_000 } else { 1_000_000 },
+            n: if quick { 40_000 } else { 3_000_000 },
         })),
         "c04" => Some(Box::new(c04::Crash {
             plan: texts::TextPlan::new(quick),
+        })),
+        "c04cli" => Some(Box::new(c04::CliTexts {
+            n: if quick { 600 } else { 20_000 },
+        })),
+        "c04lsp" => Some(Box::new(c04::LspTyping {
+            n: if quick { 48 } else { 1000 },
         })),
         "c04load" => Some(Box::new(c04::LoadCrash {
             n: if quick { 30_000 } else { 1_000_000 },
         })),
         "c05" => Some(Box::new(c05::Rewrites {
-            n: if quick { 3000 } else { 60_000 },
+            n: if quick { 3000 } else { 300_000 },
         })),
         "c06proc" => Some(Box::new(c06::Processes {
             n: if quick { 300 } else { 5000 },
@@ -411,13 +417,13 @@ pub fn workload(name: &str, tier: &str) -> Option<Box<dyn Workload>> {
         })),
         "c07unify" => Some(Box::new(c07::Unify::new(quick))),
         "c07inv" => Some(Box::new(c07::Invariance {
-            n: if quick { 4000 } else { 100_000 },
+            n: if quick { 4000 } else { 500_000 },
         })),
         "c07agree" => Some(Box::new(c07::Agreement {
-            n: if quick { 3200 } else { 100_000 },
+            n: if quick { 3200 } else { 480_000 },
         })),
         "c09" => Some(Box::new(c09::Recursion {
-            n: if quick { 4000 } else { 100_000 },
+            n: if quick { 4000 } else { 1_000_000 },
         })),
         "c10" => Some(Box::new(c10::Loads::new(quick))),
         "c11" => Some(Box::new(c11::Texts {
@@ -431,10 +437,10 @@ pub fn workload(name: &str, tier: &str) -> Option<Box<dyn Workload>> {
         })),
         "c12growth" => Some(Box::new(c12::Growth)),
         "c08" => Some(Box::new(c08::Binding {
-            n: if quick { 5000 } else { 200_000 },
+            n: if quick { 5000 } else { 1_000_000 },
         })),
         "c02" => Some(Box::new(c02::Wt {
-            n: if quick { 6000 } else { 200_000 },
+            n: if quick { 6000 } else { 2_000_000 },
             cfg: c02::wt_cfg(),
         })),
         _ => None,
